@@ -28,7 +28,20 @@ Sizes     degenerate: initial_mc_paths = 0 (fixed-level: no sample anywhere; ada
           items); sub "adaptive-big": arrays of 1100 rows topped up to about 5 000 / 5 700 / 5 800 rows in four passes (one
           deviation; through the pool with none) and, one run, to about 80 000 / 91 000 / 93 000 rows (beyond 2**15 and
           2**16 rows, 3-4 passes beyond).
-Forms     payoff dimension and form of the strike: Forward (scalar), Vanilla with a float strike, a list of one, a list / a
+Costs     the cost of one simulation per level, as the scripted coupling reports it after every pass (mc/mlmc_driver.COST_KINDS):
+          2**l integer VALUED (the historical one: Python float; and as Python int), 0.37 2**l (numpy float64, the kind the
+          library's chains return: intensity (dimension + log states)), tiny (0.0137 1.5**l: a whole pass costs less than
+          1), large (3.3e9 2**l + 0.25: beyond the 32-bit integers), huge (1.7e19 2**l: a pass beyond 2**63), irregular
+          (a table neither monotone nor geometric in the level, ints among the floats), measured (0.37 2**l (1 + b/4) for
+          the samples of pass b: a cost that differs from pass to pass, reset by reset_one_simulation_cost), the int 0 of
+          LevyProcess (fixed-level variant only). Subs "adaptive-costs" / "fixed-costs": every kind on a fresh engine,
+          single process (thorough: also 2 / None processes, regressed rates, control variates); every other case that is
+          not shared with C06 (sub "adaptive" keeps 2**l) gets the i-th kind of an odd-length menu in rotation, so that
+          every kind meets the pool, the second pricing, the engine copies, the degenerate sizes and both entry points.
+Scales    notional 1e-6 and 1e7 (rmse scaled with it) next to the usual 2.5: fixed-level, its pool twin, adaptive.
+Forms     the given convergence rates as Python floats / Python ints (the scripts' form) / numpy float64; rmse and the
+          discount factor as numpy float64;
+          payoff dimension and form of the strike: Forward (scalar), Vanilla with a float strike, a list of one, a list / a
           tuple of two, a numpy array of three strikes; the integer arguments (initial_level, maximum_level,
           initial_mc_paths) as Python ints or numpy int64 / int32 scalars; the accessors with numpy integer level / start /
           end.
@@ -40,10 +53,16 @@ Oracle    reference model = plain list of (fine, coarse) per level appended at e
           given unchanged; at return the public accessors simulation_payoff_with_fine_process / _coarse_process give the
           reference rows: whole, with start / end, at the exact ties of the range (end 0, start = end, start = n, end = n,
           start 0, negative start) and with numpy integer arguments; Nl, ml, vl, mean_level_l, var_level_l, kurtosis,
-          consistency_check, cl, cost equal PLAIN NUMPY statistics of the reference
+          consistency_check equal PLAIN NUMPY statistics of the reference
           lists (independent of the library's moment helpers; tolerances = forward error bounds of the non-centred-moment
           formulas, a few ulps of mean^2; consistency_check elements whose denominator is not determined to 1e-3 by those
           bounds are counted `cc-degenerate`, not judged).
+          Costs: the reference tally counts the samples simulated in every pass of every level; the exact (rational) work
+          of level l = sum over its passes of (cost reported for that pass) x (samples simulated in it). The sum_cost
+          array handed to every set_mlmc_results (both entry points) and, at return and on every copy, cl = work / N_l and
+          cost = total work are compared with it in rational arithmetic, tolerance 2 u (2 passes + levels + 2) relative
+          (the roundings of the engine's own accumulation; no absolute slack: a truncated or dropped fraction of a pass
+          is an error whatever its size); an integer-typed array with the right values is accepted.
 Reading   the reported quantities are lazy and memoised, so the ORDER of the reads is part of the history:
 histories   (a) every run: the returned results object is read in the canonical order;
             (b) every run: a second results object of the run (set_mlmc_results again, what the engine does before
@@ -65,7 +84,8 @@ Copies    first run of every case (first shard):
                 (alternating) is put aside; after the run has finished each must still pass the whole oracle against the
                 samples simulated up to its own observation point (the later passes must not reach into it).
 Engine    subs "*-reprice": the Engine object has priced before (prior = adaptive run with another rmse, or fixed-level
-histories run; all regimes default); the run under test is its SECOND pricing and must report its own samples only.
+histories run; all regimes default; of the same product or of ANOTHER one: a 2-vector of calls with another notional);
+          the run under test is its SECOND pricing and must report its own samples only.
           subs "*-engine-copy": the Engine object that prices is a deepcopy / dill round trip of the constructed one
           ("fresh"), of one that has priced before ("after-prior"), or a copy taken inside the prior pricing of the
           original, used after the original has finished ("midrun-of-prior"); adaptive (six kind x moment combinations, two through the pool;
@@ -82,7 +102,8 @@ Not covered: the random streams of the pool workers (C08), real coupling process
           (g)), the adaptive algorithm with initial_level < 2 (Engine.price raises IndexError in the bias test before
           anything is reported: C06's exclusion), the fixed-level variant with initial_level > maximum_level (not a
           multilevel configuration), initial_mc_paths given as a float or a numpy uint64 (the pinned tree
-          raises TypeError), MLMCStatistics.mc_stddev (C07), the engine's branch for more than 10 million
+          raises TypeError), a zero one-simulation cost in the adaptive algorithm (the allocation divides by it: C06's open
+          finding), one-simulation costs that are negative / nan / not numbers, MLMCStatistics.mc_stddev (C07), the engine's branch for more than 10 million
           paths at level 0 (a logging branch, out of any budget).
 """
 from __future__ import annotations
@@ -104,7 +125,10 @@ RULE = (
     "run's results are read in the canonical order and, on a second results object, after the next run; the first run of "
     "a case is read in all 30 first-pair orders, the '-orders' cases in all 720 orders; on the first run of a case copies "
     "(copy / deepcopy / dill) of the results object (read in part before), of the returned statistics object and of the "
-    "statistics object at each of its first four mid-run observation points are judged like the originals; a configuration is "
+    "statistics object at each of its first four mid-run observation points are judged like the originals; every case not "
+    "shared with C06 carries one of the stated one-simulation cost kinds (integer valued, fractional, tiny, large, huge, "
+    "irregular, measured per pass, zero) and the accumulated cost handed over at every observation point, cl and cost are "
+    "compared with the exact rational work of the simulated samples; a configuration is "
     "non-trivial when its runs produced at least two distinct loop trajectories (sequence of (levels, Nl) at each "
     "set_mlmc_results) or, for the fixed-level variant, at least one compared level or, for an '-orders' case, its 120 "
     "orders were compared or, with initial_mc_paths = 0 or the default regimes only (bound 0), the run returned and its levels were "
@@ -125,6 +149,12 @@ QUANT = ("ml", "vl", "mean_level_l", "var_level_l", "kurtosis", "consistency_che
 # the order in which the library's convergence scripts read them (consistency_check first)
 SCRIPTS_ORDER = ("consistency_check", "kurtosis", "var_level_l", "vl", "mean_level_l", "ml")
 U = 2.220446049250313e-16
+# the cost kinds (mc/mlmc_driver.COST_KINDS) rotated through the cases: adaptive subs (no zero cost: the allocation with a
+# zero-cost level is C06's open finding; "huge" in the "adaptive-costs" cases), fixed-level subs, the "adaptive-big" cases
+# (their sizes are tuned on costs proportional to 2**l)
+ADAPTIVE_COSTS = ("frac", "pow2", "tiny", "measured", "large", "irregular", "pow2-int")
+FIXED_COSTS = ("frac", "pow2", "tiny", "zero-int", "measured", "large", "irregular", "pow2-int", "huge")
+BIG_COSTS = ("frac", "pow2", "large")
 
 
 # (start, end, class) of the calls of the public accessors of the stored samples; "n" = the number of samples of the level.
@@ -148,9 +178,10 @@ class CopyRefused(Exception):
 class _Truncated:
     """The reference model as it was when a mid-run copy was taken: the first counts[l] samples of every level."""
 
-    def __init__(self, rec, counts):
+    def __init__(self, rec, counts, batch_sizes=None):
         self.samples = {l: list(rec.samples.get(l, []))[:n] for l, n in counts.items()}
         self.regime_log = list(rec.regime_log)
+        self.batch_sizes = batch_sizes if batch_sizes is not None else {l: list(v) for l, v in rec.batch_sizes.items()}
 
 
 def copy_of(obj, kind):
@@ -247,11 +278,14 @@ def cases(tier):
                               "notional": 2.5, "bound": 1, "shard": [0, 1]})
     # many levels (all but the first added by one extend) and a sample size beyond the chunk size of the simulated pool;
     # the integer arguments as numpy scalars; the spot-statistics option of the configuration
-    for extra in ({"L0": 0, "Lmax": 7, "N0": 3}, {"L0": 2, "Lmax": 5, "N0": 33}, {"L0": 1, "Lmax": 3, "N0": 7, "ints": "int64"},
+    for extra in ({"L0": 0, "Lmax": 7, "N0": 3}, {"L0": 2, "Lmax": 5, "N0": 33}, {"L0": 1, "Lmax": 3, "N0": 7, "ints": "int64", "df_form": "npfloat"},
                   {"L0": 0, "Lmax": 1, "N0": 2, "ints": "int32"}, {"L0": 1, "Lmax": 3, "N0": 7, "spot": True},
-                  {"L0": 0, "Lmax": 0, "N0": 1, "spot": True}):
+                  {"L0": 0, "Lmax": 0, "N0": 1, "spot": True}, {"L0": 1, "Lmax": 3, "N0": 7, "notional": 1e-6},
+                  {"L0": 1, "Lmax": 3, "N0": 7, "notional": 1e7}):
         for payoff in ("forward", "call2"):
             if not thorough and (extra["Lmax"], payoff) in ((7, "call2"), (5, "forward")):
+                continue
+            if not thorough and (extra.get("notional"), payoff) in ((1e-6, "call2"), (1e7, "forward")):
                 continue
             fixed.append(dict({"sub": "fixed", "cv": "none", "payoff": payoff, "df": 0.9, "notional": 2.5, "bound": 1,
                                "shard": [0, 1]}, **extra))
@@ -272,21 +306,29 @@ def cases(tier):
                 for i in range(n):
                     out.append(dict(c, sub="adaptive-pool", procs=2 if c["N0"] == 2 else None, bound=2, shard=[i, n]))
     for c in fixed:
-        historic = c["N0"] > 0 and c["payoff"] in ("forward", "call2") and not (c.get("ints") or c.get("spot")) and c["Lmax"] <= 3
+        historic = (c["N0"] > 0 and c["payoff"] in ("forward", "call2") and not (c.get("ints") or c.get("spot")) and c["Lmax"] <= 3
+                    and c["notional"] == 2.5)
         # (with one or two items the chunks of None = 3 workers are those of 2 workers)
         for procs in ((2, None) if (thorough or (historic and c["N0"] > 2)) else (2,)):
             out.append(dict(c, sub="fixed-pool", procs=procs))
     # histories on a re-used Engine object: it has priced before (adaptive with another rmse / fixed-level), all regimes default
+    # (quick: the i-th configuration with prior i mod 2 and, for i mod 3 == 2, a prior pricing of ANOTHER product - a
+    # 2-vector of calls with another notional -; thorough: the product configurations x priors x {same, other product})
+    i = -1
     for c in configs(False):
         if c["cv"] == "none" and c["payoff"] == "forward" and c["rmse"] == 0.5 and c["N0"] == 5 and c["rates"] == "given":
-            for prior in ("adaptive", "fixed"):
-                out.append(dict(c, sub="adaptive-reprice", prior=prior, bound=1, shard=[0, 1]))
+            i += 1
+            for j, prior in enumerate(("adaptive", "fixed")):
+                for other in (False, True):
+                    if thorough or (j == i % 2 and other == (i % 3 == 2)):
+                        extra = {"prior_payoff": "call2"} if other else {}
+                        out.append(dict(c, sub="adaptive-reprice", prior=prior, bound=1, shard=[0, 1], **extra))
             if (c["L0"], c["Lmax"]) == (2, 3):
                 out.append(dict(c, sub="adaptive-pool-reprice", prior="adaptive", procs=2, bound=1, shard=[0, 1]))
     for c in fixed:
         if c["N0"] == 7 and c["cv"] == "none" and c["payoff"] == "forward":
             for prior in (("fixed", "adaptive") if c["L0"] >= 2 else ("fixed",)):
-                out.append(dict(c, sub="fixed-reprice", prior=prior))
+                out.append(dict(c, sub="fixed-reprice", prior=prior, **({"prior_payoff": "call2"} if c.get("spot") else {})))
     # accumulation beyond the usual small-size thresholds of an allocation policy: levels whose arrays hold more than 1024 /
     # 4096 rows (and, one run, more than 2**15 / 2**16 rows) topped up three or four times
     big = {"sub": "adaptive-big", "L0": 2, "Lmax": 3, "N0": 1100, "rmse": 0.08, "rates": "regressed", "cv": "none",
@@ -312,6 +354,8 @@ def cases(tier):
     c0 = {"L0": 2, "Lmax": 3, "N0": 5, "rmse": 0.5, "rates": "given", "cv": "none", "payoff": "forward", "df": 0.9,
           "notional": 2.5, "bound": 1, "shard": [0, 1]}
     for extra in ({"spot": True}, {"spot": True, "procs": 2, "payoff": "call2", "bound": 0}, {"ints": "int64"},
+                  {"rates": "given-int"}, {"rates": "given-np", "rmse_form": "npfloat", "df_form": "npfloat", "bound": 0},
+                  {"notional": 1e-6, "rmse": 2e-7}, {"notional": 1e7, "rmse": 2e6, "payoff": "call2", "bound": 0},
                   {"payoff": "call3", "cv": "one"}, {"payoff": "calls", "bound": 0}, {"payoff": "call1", "procs": 2, "bound": 0}):
         c = dict(c0, sub="adaptive-options", **extra)
         out.append(dict(c, bound=1) if thorough else c)
@@ -342,6 +386,39 @@ def cases(tier):
                   {"sub": "adaptive-pool-orders", "procs": 2}):
         for q in QUANT:
             out.append(dict(base, **extra, orders_first=q))
+    # one-simulation costs per level (mc/mlmc_driver.COST_KINDS): every value class and form, adaptive and fixed-level, on a fresh
+    # engine, single process ...
+    cc = {"L0": 2, "Lmax": 4, "N0": 5, "rmse": 0.5, "rates": "given", "cv": "none", "payoff": "forward", "df": 0.9,
+          "notional": 2.5, "bound": 1, "shard": [0, 1]}
+    cf = {"L0": 1, "Lmax": 3, "N0": 7, "cv": "none", "payoff": "forward", "df": 0.9, "notional": 2.5, "bound": 1, "shard": [0, 1]}
+    for kind in ADAPTIVE_COSTS + ("huge",):
+        if kind != "pow2":
+            out.append(dict(cc, sub="adaptive-costs", cost=kind))
+            if thorough:
+                for procs in (2, None):
+                    out.append(dict(cc, sub="adaptive-costs", cost=kind, procs=procs))
+                out.append(dict(cc, sub="adaptive-costs", cost=kind, N0=2, Lmax=3, rates="regressed"))
+                out.append(dict(cc, sub="adaptive-costs", cost=kind, cv="one", procs=2))
+    for kind in FIXED_COSTS:
+        if kind != "pow2":
+            out.append(dict(cf, sub="fixed-costs", cost=kind))
+            if thorough:
+                out.append(dict(cf, sub="fixed-costs", cost=kind, procs=2))
+                out.append(dict(cf, sub="fixed-costs", cost=kind, cv="one", payoff="call2", procs=None))
+    # ... and, in rotation, on every case above that is not shared with C06 (sub "adaptive" keeps the historical costs): the
+    # i-th case of a sub gets the i-th cost kind of the menu (mod its length; the menus have odd lengths, the enumerated
+    # dimensions of the subs have periods 2, 3, 4, 6)
+    seen = {}
+    for c in out:
+        if c["sub"] in ("adaptive", "adaptive-costs", "fixed-costs"):
+            continue
+        menu = ADAPTIVE_COSTS if c["sub"].startswith("adaptive") else FIXED_COSTS
+        if c["sub"] == "adaptive-big":
+            menu = BIG_COSTS
+        i = seen.get(c["sub"], 0)
+        seen[c["sub"]] = i + 1
+        if menu[i % len(menu)] != "pow2":
+            c["cost"] = menu[i % len(menu)]
     return out
 
 
@@ -352,10 +429,21 @@ def build_engine(case, chooser):
     from rpylib.montecarlo.multilevel.engine import Engine
 
     rec = D.Recorder(chooser)
-    coupling = D.ScriptedCoupling(rec, df=case["df"])
+    # argument form of the discount factor the fine process returns: Python float (usual) or numpy float64
+    df = np.float64(case["df"]) if case.get("df_form") == "npfloat" else case["df"]
+    coupling = D.ScriptedCoupling(rec, df=df, cost=case.get("cost", "pow2"))
     product = D.make_product(case["payoff"], notional=case["notional"])
     cv = D.make_control_variates(case["cv"], notional=case["notional"], dim=D.payoff_dim(case["payoff"]))
-    rates = ConvergenceRates(alpha=1.0, beta=2.0, gamma=1.0) if case.get("rates", "given") == "given" else ConvergenceRates()
+    # argument form of the given rates: Python floats (usual), Python ints (as in the library's scripts), numpy float64
+    rk = case.get("rates", "given")
+    if rk == "given":
+        rates = ConvergenceRates(alpha=1.0, beta=2.0, gamma=1.0)
+    elif rk == "given-int":
+        rates = ConvergenceRates(alpha=1, beta=2, gamma=1)
+    elif rk == "given-np":
+        rates = ConvergenceRates(alpha=np.float64(1.0), beta=np.float64(2.0), gamma=np.float64(1.0))
+    else:
+        rates = ConvergenceRates()
     # argument form of the integer arguments: Python int (usual) or numpy integer scalars
     as_int = {"python": int, "int64": np.int64, "int32": np.int32}[case.get("ints", "python")]
     kw = {}
@@ -460,6 +548,11 @@ def compare_state(sh, case, rec, stats, Nl, sum_cost, where, variant, final=None
                              {"stored": gcv[:3].tolist(), "reference": rcv[:3].tolist()})
         ref_fine.append(ref[:, 0, 0])
         ref_coarse.append(ref[:, 0, 1])
+    work = ref_work(sh, case, rec, nlev, variant)
+    if sum_cost is not None:
+        # the accumulated cost the engine hands over = the work of exactly the samples simulated so far, level by level
+        compare_cost(sh, "sum_cost", np.asarray(sum_cost), work, rec, f"C05:{variant}:sum_cost-differs-from-the-work-of-the-simulated-samples"
+                     f"{cost_suffix(case)}", tag, {"Nl": Nl.tolist(), "regimes": rec.regime_log})
     # price without control variates: sum of per-level means of component 0
     try:
         p = stats.price(no_control_variates=True)
@@ -518,17 +611,19 @@ def compare_state(sh, case, rec, stats, Nl, sum_cost, where, variant, final=None
                                      {"Nl": Nl.tolist(), "regimes": rec.regime_log})
     if res is not None and all(f.size for f in ref_fine) and where == "return":
         # counts and costs (whatever the control variates)
-        cost_ref = np.array([float(2 ** l) * len(rec.samples.get(l, [])) for l in range(nlev)])
         detail = {"Nl": Nl.tolist(), "regimes": rec.regime_log}
         with np.errstate(all="ignore"):
             n_ref = np.array([float(len(f)) for f in ref_fine])
-            for name, b in (("cl", cost_ref / n_ref), ("cost", float(np.sum(cost_ref)))):
-                a = np.asarray(getattr(res, name), dtype=float)
-                b = np.asarray(b, dtype=float)
-                sh.count("evaluations")
-                if a.shape != b.shape or not np.allclose(a, b, rtol=1e-12, atol=0.0, equal_nan=True):
-                    sh.violation(f"C05:{variant}:reported-{name}-not-from-the-simulated-samples",
-                                 f"{tag}: reported {name} = {a.tolist()} but the simulated samples give {b.tolist()}", detail)
+            for name, b in (("cl", [w / len(f) for w, f in zip(work, ref_fine)]), ("cost", [sum(work)])):
+                try:
+                    a = np.asarray(getattr(res, name))
+                except Exception as e:  # noqa
+                    sh.violation(f"C05:{variant}:reported-{name}-raises:{type(e).__name__}{cost_suffix(case)}", f"{tag}: {e!r}", detail)
+                    continue
+                if name == "cost" and a.shape == ():
+                    a = a.reshape(1)
+                compare_cost(sh, name, a, b, rec, f"C05:{variant}:reported-{name}-not-from-the-simulated-samples{cost_suffix(case)}",
+                             tag, detail)
         if not np.array_equal(np.asarray(res.Nl, dtype=float), n_ref):
             sh.violation(f"C05:{variant}:reported-Nl-not-the-simulated-counts",
                          f"{tag}: mlmc_results.Nl = {np.asarray(res.Nl).tolist()} but simulated {[len(f) for f in ref_fine]}", None)
@@ -563,6 +658,42 @@ def compare_state(sh, case, rec, stats, Nl, sum_cost, where, variant, final=None
             # a quantity already wrong in the canonical order is not judged again by the reading-history sub-checks
             final["refm"], final["wrong"] = refm, tuple(sorted(wrong))
     return (nlev, tuple(int(x) for x in Nl))
+
+
+def cost_suffix(case):
+    """Input class of the one-simulation costs in the violation keys (none for the historical integer-valued 2**l)."""
+    kind = case.get("cost", "pow2")
+    return "" if kind == "pow2" else f":{kind}-costs"
+
+
+def ref_work(sh, case, rec, nlev, variant):
+    """Exact work per level of the samples in the reference model: list of Fractions (mc/mlmc_driver.reference_work on the
+    tally of the samples simulated per batch)."""
+    sizes = getattr(rec, "batch_sizes", {})
+    for level in range(nlev):
+        if sum(sizes.get(level, ())) != len(rec.samples.get(level, [])):
+            sh.violation(f"C05:{variant}:harness:batch-tally-differs-from-the-sample-list",
+                         f"level {level}: batches {sizes.get(level)} but {len(rec.samples.get(level, []))} samples", None)
+    return D.reference_work(case.get("cost", "pow2"), sizes, nlev)
+
+
+def compare_cost(sh, name, got, work, rec, key, tag, detail):
+    """A reported cost array against the exact work (Fractions). The engine accumulates cost * paths pass after pass in
+    floating point: one rounding per product and per addition, all terms non-negative, so the relative error is at most
+    (2 passes + levels + 2) u; judged with twice that bound, compared exactly in rational arithmetic."""
+    from fractions import Fraction
+
+    sh.count("evaluations")
+    passes = max([len(v) for v in getattr(rec, "batch_sizes", {}).values()] or [0])
+    rel = Fraction(2 * U * (2 * passes + len(work) + 2))
+    ok = got.shape == (len(work),) and got.dtype.kind in "fiu"
+    if ok:
+        for a, w in zip(got.tolist(), work):
+            if not (math.isfinite(a) and abs(Fraction(a) - w) <= rel * w):
+                ok = False
+    if not ok:
+        sh.violation(key, f"{tag}: {name} = {got.tolist()} ({got.dtype}) but the work of the simulated samples gives "
+                     f"{[float(w) for w in work]}", detail)
 
 
 def ref_moments(ref_fine, ref_coarse):
@@ -722,6 +853,7 @@ def run_once(sh, case, chooser, extras=False):
             # a copy of the statistics object (with its unread results object) mid-run, judged after the run
             kind = ("deepcopy", "dill")[len(traj) % 2]
             counts = {l: len(v) for l, v in rec.samples.items()}
+            counts = (counts, {l: list(v) for l, v in rec.batch_sizes.items()})
             try:
                 snaps.append((kind, copy_of(self, kind), given[0], counts))
             except Exception as e:  # noqa
@@ -758,15 +890,19 @@ def run_once(sh, case, chooser, extras=False):
                                 grabbed.append(engine_copy(eng))
 
                         MLMCStatistics.set_mlmc_results = grab
+                    prior_product = product
+                    if case.get("prior_payoff"):
+                        # the earlier pricing was of another product (other payoff dimension, other notional)
+                        prior_product = D.make_product(case["prior_payoff"], notional=1.5)
                     try:
-                        price(eng, product, case["prior"], 0.3)
+                        price(eng, prior_product, case["prior"], 0.3)
                     finally:
                         MLMCStatistics.set_mlmc_results = orig
                     if ec_when == "after-prior":
                         eng = engine_copy(eng)
                     elif ec_when == "midrun-of-prior":
                         eng = grabbed[0]  # the copy taken while the original was pricing; the original has finished since
-                    for d in (rec.samples, rec.batches, rec.pending, rec.regime):
+                    for d in (rec.samples, rec.batches, rec.pending, rec.regime, rec.batch_sizes, rec.measured):
                         d.clear()
                     for lst in (rec.regime_log, rec.next_level_calls, rec.simulate_levels, rec.events):
                         del lst[:]
@@ -776,7 +912,8 @@ def run_once(sh, case, chooser, extras=False):
                 chooser.choose = guarded
                 MLMCStatistics.set_mlmc_results = observed
                 try:
-                    stats = price(eng, product, "adaptive" if adaptive else "fixed", case.get("rmse"))
+                    rmse = np.float64(case["rmse"]) if case.get("rmse_form") == "npfloat" else case.get("rmse")
+                    stats = price(eng, product, "adaptive" if adaptive else "fixed", rmse)
                 except Horizon:
                     outcome = "horizon"
                     sh.count("horizon-runs")
@@ -803,7 +940,7 @@ def run_once(sh, case, chooser, extras=False):
             Nl_final = np.asarray(stats.mlmc_results.Nl)
             if "Nl" not in last:  # the engine did not go through set_mlmc_results: the reference counts and costs
                 last["Nl"] = np.array(Nl_final, copy=True)
-                last["sum_cost"] = np.array([float(2 ** l) * len(rec.samples.get(l, [])) for l in range(len(Nl_final))])
+                last["sum_cost"] = np.array([float(w) for w in ref_work(sh, case, rec, len(Nl_final), variant)])
             final = {"stats": stats, "variant": variant, "Nl": last["Nl"], "sum_cost": last["sum_cost"],
                      "regimes": rec.regime_log}
             copies = []
@@ -819,7 +956,7 @@ def run_once(sh, case, chooser, extras=False):
                 compare_state(sh, case, rec, cp, np.asarray(cp.mlmc_results.Nl), None, "return", f"{variant}:{kind}-of-statistics")
                 sh.count("statistics-copies")
             for kind, cp, Nl_then, counts in snaps:
-                compare_state(sh, case, _Truncated(rec, counts), cp, Nl_then, None, "return", f"{variant}:midrun-{kind}-of-statistics")
+                compare_state(sh, case, _Truncated(rec, *counts), cp, Nl_then, None, "return", f"{variant}:midrun-{kind}-of-statistics")
                 sh.count("statistics-copies")
     return tuple(traj), outcome, rec, final
 
